@@ -41,7 +41,11 @@ def codeType2Portable(code, version_tuple=PYTHON_VERSION_TRIPLE):
         raise TypeError(
             f"parameter expected to be a types.CodeType type; is {type(code)} instead"
         )
-    line_table_field = "co_lnotab" if hasattr(code, "co_lnotab") else "co_linetable"
+    if version_tuple >= (3, 10) and hasattr(code, "co_linetable"):
+        # From 3.10 on co_lnotab is only a legacy re-encoding; the real table is co_linetable.
+        line_table_field = "co_linetable"
+    else:
+        line_table_field = "co_lnotab" if hasattr(code, "co_lnotab") else "co_linetable"
     line_table = getattr(code, line_table_field)
     if version_tuple >= (3, 0):
         if version_tuple < (3, 8):
